@@ -17,12 +17,12 @@ REPO = '/repo'
 FILE_CHECKS = {
     'pykdebugparser/kevent.py': ['C01', 'C02'],
     'pykdebugparser/kd_buf_parser.py': ['C02', 'C03', 'C06'],
-    'pykdebugparser/traces_parser.py': ['C04', 'C05', 'C07', 'C08'],
+    'pykdebugparser/traces_parser.py': ['C04', 'C05', 'C07', 'C08', 'C20', 'C09'],
     'pykdebugparser/trace_handlers/trace.py': ['C05', 'C07', 'C08', 'C14'],
     'pykdebugparser/trace_handlers/fsystem.py': ['C08', 'C07'],
     'pykdebugparser/trace_handlers/dyld.py': ['C07', 'C20', 'C11', 'C15'],
     'pykdebugparser/trace_handlers/perf.py': ['C20', 'C15', 'C11'],
-    'pykdebugparser/trace_handlers/mach.py': ['C09', 'C11', 'C20', 'C07'],
+    'pykdebugparser/trace_handlers/mach.py': ['C09', 'C11', 'C20', 'C07', 'C14'],
     'pykdebugparser/trace_handlers/bsd.py': ['C09', 'C10', 'C11', 'C17', 'C18', 'C08'],
     'pykdebugparser/callstacks_parser.py': ['C15'],
     'pykdebugparser/pykdebugparser.py': ['C12', 'C13', 'C14', 'C19', 'C06'],
